@@ -218,11 +218,9 @@ theorem resolve_some {classes : List Cls} {d N n : Nat} {m : Method}
     · exact ⟨c, hc, h3, by rw [h4]; exact hle, h5, h6⟩
   · cases h1
 
-theorem rowOk_cell {schemas : List Schema} {classes : List Cls} {ungen : List Nat}
-    {depLive : List (Nat × Nat × Nat)} {d n : Nat}
-    (h : rowOk schemas classes ungen depLive d n = true) {c : Cls} (hc : c ∈ classes) (hd : c.domain = d) :
-    cellOk (ungen.contains d) (depLive.contains (d, c.version, n)) (lookup schemas d c.version n)
-      (resolve classes d c.version n) = true := by
+theorem rowOk_cell {schemas : List Schema} {classes : List Cls} {ungen : List Nat} {d n : Nat}
+    (h : rowOk schemas classes ungen d n = true) {c : Cls} (hc : c ∈ classes) (hd : c.domain = d) :
+    cellOk (ungen.contains d) (lookup schemas d c.version n) (resolve classes d c.version n) = true := by
   unfold rowOk at h
   rw [selectS_cps, selectM_cps] at h
   have := List.all_eq_true.mp h c hc
